@@ -18,6 +18,16 @@ TRUSTED_BASE = [
 CMP = 'DeriveExModel.Props.'
 
 
+def proved_where(mism, case):
+    """is the where-clause of the mismatching segment covered by the C04 theorems (model = documented walk)?"""
+    lab = mism.get('label', '')
+    t = lab.split(':')[-1].split('#')[0]
+    is_enum = ' enum ' in (' ' + case.get('item', '').split('{')[0] + ' ')
+    if t in ('Debug', 'Default'):
+        return not is_enum
+    return t not in ('Deref', 'DerefMut')
+
+
 def extra_cmp_l2(fam, kinds, nq, nt, laws=False):
     """L2 for the comparison family: compiled programs, every ordered pair of values of small domains;
     expected rows come from the model's semantics (= the documented rule, by the C01/C06 theorems)."""
@@ -251,14 +261,20 @@ PROPS = {
     ),
     'C03': dict(
         theorems=[(CMP + 'C04', ['DX.absent_contrib', 'DX.default_fields_exact', 'DX.clone_struct_default_where',
-                                 'DX.clone_struct_where', 'DX.clone_enum_where', 'DX.copy_enum_where', 'DX.copy_struct_where'])],
+                                 'DX.clone_struct_where', 'DX.clone_enum_where', 'DX.copy_enum_where', 'DX.copy_struct_where',
+                                 'DX.ops_where', 'DX.default_struct_where', 'DX.default_struct_where_value', 'DX.debug_struct_where', 'DX.selBounds_walk', 'DX.cmp_struct_where', 'DX.cmp_enum_where', ]),
+                  ('DeriveExModel.Lemmas.Bounds', ['DX.FieldE.pushBoundsTo_contrib', 'DX.walk_true'])],
         l1=[('bounds', 6000, 200000), ('all', 3000, 100000), ('ops', 2000, 50000), ('cmpN', 2000, 50000)],
         labels=r'^e\d+:',
         kinds=('tokens', 'count', 'panic', 'nondet', 'parse'),
+        l1_is_concrete=('tokens',),
+        l1_concrete_if=proved_where,
+        l1_concrete_text='the where-clause of this impl differs from the documented resolution of bound(..) / default bounds (the model, proved equal to Plan.whereClause for this trait and item kind)',
         level_text='partial: Lean theorems that the where-clause threaded by the builders is the declarative walk and that with no bound(..) it consists of the declared predicates plus exactly the used field types mentioning a parameter (proved for Clone and Copy; the other traits are tied by L1 only so far); L1 compares every where-clause token for token',
     ),
     'C04': dict(
         theorems=[(CMP + 'C04', ['DX.clone_struct_where', 'DX.clone_enum_where', 'DX.copy_enum_where', 'DX.copy_struct_where',
+                                 'DX.ops_where', 'DX.default_struct_where', 'DX.default_struct_where_value', 'DX.debug_struct_where', 'DX.selBounds_walk', 'DX.cmp_struct_where', 'DX.cmp_enum_where', 
                                  'DX.declared_where_retained', 'DX.empty_bound_stops', 'DX.absent_level_skipped',
                                  'DX.dots_level_continues', 'DX.plain_level_stops', 'DX.stop_is_local']),
                   ('DeriveExModel.Lemmas.Bounds', ['DX.walk_true', 'DX.walk_append', 'DX.HAttrs.pushBoundsToRaw_walk',
@@ -267,6 +283,9 @@ PROPS = {
         l1=[('bounds', 8000, 300000), ('all', 3000, 100000)],
         labels=r'^e\d+:',
         kinds=('tokens', 'count', 'panic', 'nondet', 'parse'),
+        l1_is_concrete=('tokens',),
+        l1_concrete_if=proved_where,
+        l1_concrete_text='the where-clause of this impl differs from the documented resolution of bound(..) / default bounds (the model, proved equal to Plan.whereClause for this trait and item kind)',
         level_text='Lean theorems: the flag-threading of the builders equals the documented walk over chains of levels (reached levels contribute verbatim; continue iff absent or `..`; stops are local; declared where-clause retained), with the per-trait level tables proved for Clone and Copy and the helper-attribute level (most specific first) for the comparison traits; L1 compares every where-clause token for token on assignments of all bound(..) shapes to all levels',
     ),
     'C05': dict(
